@@ -39,6 +39,15 @@ def programs(tier):
     }
     for tag, (pre, us, body, outs) in small.items():
         yield {"tag": tag, "pre": pre, "untyped": us, "body": body, "outputs": outs, "k": len(us)}
+    # explicit uses of pool signals that sit deep in the allocation order (digits, colours, arrows, shapes, symbols)
+    late = ["signal-7", "signal-red", "down-arrow", "shape-cross", "signal-info", "signal-percent"]
+    for k in ((60,) if tier == "quick" else (60, 100, 135)):
+        us = [f"u{i}" for i in range(1, k + 1)]
+        pre = [("decl", "Signal", f"e{j}", ("lit", nm, I(1000 + j))) for j, nm in enumerate(late)]
+        items = [V(f"e{j}") for j in range(len(late))] + [V(u) for u in us]
+        yield {"tag": f"explicit-late-{k}", "pre": pre, "untyped": us,
+               "body": [("decl", "Bundle", "bb", ("bundle", items)), ("decl", "Bundle", "r", B("+", V("bb"), I(1)))],
+               "outputs": ["r"], "k": k}
     ks = (27, 40) if tier == "quick" else (27, 40, 80, 120)
     for k in ks:
         us = [f"u{i}" for i in range(1, k + 1)]
